@@ -55,6 +55,12 @@ Theorem C16_family_ok_complete : forall fam,
 Proof. exact family_ok_complete. Qed.
 Print Assumptions C16_family_ok_complete.
 
+Example C16_family_ok_complete_nonvacuous :
+  (* an exact family that is not of to_semi_naive's shape: split on atom 1 first *)
+  family_ok [ [ (1, New); (0, All) ]; [ (0, New); (1, Old) ] ]%N = true /\
+  icount [ [ (1, New); (0, All) ]; [ (0, New); (1, Old) ] ]%N [true; true] = 1.
+Proof. vm_compute. split; reflexivity. Qed.
+
 (* The criterion decides the same thing as enumerating all 2^n labellings. *)
 Theorem C16_family_ok_enum_iff : forall fam, family_ok_enum fam = family_ok fam.
 Proof. exact family_ok_enum_iff. Qed.
